@@ -40,6 +40,7 @@ import (
 	"io"
 	"math/rand"
 	"net/http"
+	"runtime"
 	"sort"
 	"strings"
 	"sync"
@@ -118,19 +119,36 @@ func (o *v01Op) String() string {
 	}
 }
 
+// v01ConnPlan: a connection is opened right before round Open and closed (client side,
+// then the harness waits until the server has seen the close) right after round Close-1.
+type v01ConnPlan struct {
+	Open, Close int
+	Accept      bool // role: does the history contain an AuthGood on this connection
+}
+
 type v01Case struct {
 	NConn      int
-	Accept     []bool // role: does the history contain an AuthGood on this connection
+	Conns      []v01ConnPlan
+	Accept     []bool // = Conns[i].Accept
 	AcceptRnd  []int  // first round with an AuthGood (-1 = never)
 	Rounds     [][]*v01Op
 	GoodTokens []string
 	UseTL      bool
+	OneP       bool // run the case with GOMAXPROCS(1) (makes per-P caches/pools in the server deterministic)
+	Mode       string
 	Seed       int64
 }
 
 func (c *v01Case) render() string {
 	var b strings.Builder
-	fmt.Fprintf(&b, "conns=%d good=%q tl=%v", c.NConn, c.GoodTokens, c.UseTL)
+	fmt.Fprintf(&b, "conns=%d good=%q tl=%v gomaxprocs1=%v lifetimes:", c.NConn, c.GoodTokens, c.UseTL, c.OneP)
+	for i, p := range c.Conns {
+		role := "never"
+		if p.Accept {
+			role = "accept"
+		}
+		fmt.Fprintf(&b, " c%d[r%d..r%d %s]", i, p.Open, p.Close-1, role)
+	}
 	for r, ops := range c.Rounds {
 		fmt.Fprintf(&b, "\n  round %d:", r)
 		for _, o := range ops {
@@ -159,7 +177,7 @@ func (c *v01Case) fingerprint() string {
 	}
 	parts := make([]string, c.NConn)
 	for i := range per {
-		parts[i] = strings.Join(per[i], ",")
+		parts[i] = fmt.Sprintf("[%d-%d]", c.Conns[i].Open, c.Conns[i].Close) + strings.Join(per[i], ",")
 	}
 	return strings.Join(parts, "|")
 }
@@ -266,34 +284,97 @@ func v01BadToken(rt *rapid.T, good []string, name string) string {
 	}
 }
 
+func v01Seq(a, b int) []int {
+	var out []int
+	for i := a; i <= b; i++ {
+		out = append(out, i)
+	}
+	return out
+}
+
 func v01DrawCase(rt *rapid.T) *v01Case {
 	c := &v01Case{}
 	c.Seed = int64(rapid.Uint32().Draw(rt, "seed"))
-	c.NConn = rapid.SampledFrom([]int{1, 2, 2, 2, 3, 3}).Draw(rt, "nconn")
-	switch c.NConn {
-	case 1:
-		c.Accept = []bool{rapid.IntRange(0, 3).Draw(rt, "role") > 0}
-	case 2:
-		c.Accept = rapid.SampledFrom([][]bool{{true, false}, {true, false}, {false, true}, {true, true}, {false, false}}).Draw(rt, "roles")
-	default:
-		c.Accept = rapid.SampledFrom([][]bool{{true, false, false}, {true, false, true}, {false, true, false}, {true, true, false}, {false, false, true}, {true, true, true}}).Draw(rt, "roles")
-	}
 	ntok := rapid.IntRange(1, 3).Draw(rt, "ntok")
 	off := rapid.IntRange(0, len(v01TokenPool)-1).Draw(rt, "tokoff")
 	for i := 0; i < ntok; i++ {
 		c.GoodTokens = append(c.GoodTokens, v01TokenPool[(off+i)%len(v01TokenPool)])
 	}
 	c.UseTL = rapid.IntRange(0, 3).Draw(rt, "tl") == 0
-	nr := rapid.IntRange(2, 5).Draw(rt, "rounds")
+	nr := rapid.IntRange(2, 6).Draw(rt, "rounds")
+	// --- connection lifetimes
+	c.Mode = rapid.SampledFrom([]string{"overlap", "overlap", "generations", "generations", "generations"}).Draw(rt, "mode")
+	if c.Mode == "overlap" {
+		// all connections live for the whole history
+		n := rapid.SampledFrom([]int{1, 2, 2, 2, 3, 3}).Draw(rt, "nconn")
+		var roles []bool
+		switch n {
+		case 1:
+			roles = []bool{rapid.IntRange(0, 3).Draw(rt, "role") > 0}
+		case 2:
+			roles = rapid.SampledFrom([][]bool{{true, false}, {true, false}, {false, true}, {true, true}, {false, false}}).Draw(rt, "roles")
+		default:
+			roles = rapid.SampledFrom([][]bool{{true, false, false}, {true, false, true}, {false, true, false}, {true, true, false}, {false, false, true}, {true, true, true}}).Draw(rt, "roles")
+		}
+		for _, a := range roles {
+			c.Conns = append(c.Conns, v01ConnPlan{Open: 0, Close: nr, Accept: a})
+		}
+	} else {
+		// consecutive generations: the connections of a generation are opened when it starts and
+		// closed when it ends, BEFORE the next generation's connections are opened, all against
+		// the same server. Optionally one connection spans the whole history.
+		maxG := 4
+		if nr < maxG {
+			maxG = nr
+		}
+		g := rapid.IntRange(2, maxG).Draw(rt, "generations")
+		cuts := map[int]bool{}
+		perm := rapid.Permutation(v01Seq(1, nr-1)).Draw(rt, "cuts")
+		for _, x := range perm[:g-1] {
+			cuts[x] = true
+		}
+		start, gi := 0, 0
+		for r := 1; r <= nr; r++ {
+			if r != nr && !cuts[r] {
+				continue
+			}
+			k := rapid.SampledFrom([]int{1, 1, 1, 2}).Draw(rt, fmt.Sprintf("g%d/n", gi))
+			for j := 0; j < k && len(c.Conns) < 5; j++ {
+				pAccept := 3 // of 10
+				if gi == 0 && j == 0 {
+					pAccept = 8
+				}
+				a := rapid.IntRange(0, 9).Draw(rt, fmt.Sprintf("g%d/c%d/role", gi, j)) < pAccept
+				c.Conns = append(c.Conns, v01ConnPlan{Open: start, Close: r, Accept: a})
+			}
+			start = r
+			gi++
+		}
+		if rapid.IntRange(0, 3).Draw(rt, "spanning") == 0 && len(c.Conns) < 5 {
+			c.Conns = append(c.Conns, v01ConnPlan{Open: 0, Close: nr, Accept: rapid.Bool().Draw(rt, "spanning/role")})
+		}
+		c.OneP = rapid.IntRange(0, 9).Draw(rt, "gomaxprocs1") < 4
+	}
+	c.NConn = len(c.Conns)
+	c.Accept = make([]bool, c.NConn)
+	for i, p := range c.Conns {
+		c.Accept[i] = p.Accept
+	}
 	total := 0
 	c.Rounds = make([][]*v01Op, nr)
 	kinds := []int{v01KAuthGood, v01KAuthGood, v01KAuthBad, v01KAuthBad, v01KOtherHTTP, v01KOtherHTTP, v01KTCPReq, v01KTCPReq, v01KTCPReq, v01KTCPReq, v01KTCPReq, v01KDatagram, v01KDatagram, v01KDatagram}
 	for r := 0; r < nr; r++ {
+		var alive []int
+		for i, p := range c.Conns {
+			if p.Open <= r && r < p.Close {
+				alive = append(alive, i)
+			}
+		}
 		n := rapid.IntRange(1, 4).Draw(rt, fmt.Sprintf("r%d/n", r))
-		for i := 0; i < n && total < 12; i++ {
+		for i := 0; i < n && total < 14; i++ {
 			name := fmt.Sprintf("r%d/o%d", r, i)
 			o := &v01Op{Round: r}
-			o.Conn = rapid.IntRange(0, c.NConn-1).Draw(rt, name+"/conn")
+			o.Conn = rapid.SampledFrom(alive).Draw(rt, name+"/conn")
 			o.Kind = rapid.SampledFrom(kinds).Draw(rt, name+"/kind")
 			if o.Kind == v01KAuthGood && !c.Accept[o.Conn] {
 				o.Kind = v01KAuthBad
@@ -302,20 +383,26 @@ func v01DrawCase(rt *rapid.T) *v01Case {
 			total++
 		}
 	}
-	// every accept-role connection gets at least one AuthGood
-	for ci := 0; ci < c.NConn; ci++ {
-		if !c.Accept[ci] {
-			continue
-		}
-		has := false
+	// every accept-role connection gets at least one AuthGood (early in its life, so that
+	// "authenticate, proxy, close" is common); every other connection gets at least one op
+	for ci, p := range c.Conns {
+		has, any := false, false
 		for _, ops := range c.Rounds {
 			for _, o := range ops {
 				has = has || (o.Conn == ci && o.Kind == v01KAuthGood)
+				any = any || o.Conn == ci
 			}
 		}
-		if !has {
-			r := rapid.IntRange(0, nr-1).Draw(rt, fmt.Sprintf("c%d/authround", ci))
+		if p.Accept && !has {
+			r := p.Open
+			if p.Close-p.Open > 1 && rapid.IntRange(0, 3).Draw(rt, fmt.Sprintf("c%d/authlate", ci)) == 0 {
+				r = rapid.IntRange(p.Open, p.Close-1).Draw(rt, fmt.Sprintf("c%d/authround", ci))
+			}
 			c.Rounds[r] = append(c.Rounds[r], &v01Op{Round: r, Conn: ci, Kind: v01KAuthGood})
+		} else if !p.Accept && !any {
+			r := rapid.IntRange(p.Open, p.Close-1).Draw(rt, fmt.Sprintf("c%d/opround", ci))
+			k := rapid.SampledFrom([]int{v01KTCPReq, v01KTCPReq, v01KDatagram, v01KAuthBad}).Draw(rt, fmt.Sprintf("c%d/opkind", ci))
+			c.Rounds[r] = append(c.Rounds[r], &v01Op{Round: r, Conn: ci, Kind: k})
 		}
 	}
 	c.AcceptRnd = make([]int, c.NConn)
@@ -466,20 +553,38 @@ func v01Execute(c *v01Case) (_ *v01Run, envErr string) {
 		}
 		time.Sleep(time.Duration(o.HoldMs) * time.Millisecond)
 	}
+	if c.OneP {
+		// a single P makes per-P caches/pools inside the server deterministic (restored after the case)
+		prev := runtime.GOMAXPROCS(1)
+		defer runtime.GOMAXPROCS(prev)
+	}
 	run.env = v01NewEnv(v01EnvCfg{GoodTokens: c.GoodTokens, UseTL: c.UseTL, AuthHook: hook})
-	for i := 0; i < c.NConn; i++ {
-		cl, err := v01Dial(run.env, i)
-		if err != nil {
-			for _, x := range run.clients {
+	run.clients = make([]*v01Client, c.NConn)
+	run.barrier = make([]v01HTTPResp, c.NConn)
+	run.dgramsN = make([]int, c.NConn)
+	teardown := func() {
+		for _, x := range run.clients {
+			if x != nil {
 				x.Close()
+				x.release()
 			}
-			run.env.Close()
-			return nil, err.Error()
 		}
-		run.clients = append(run.clients, cl)
+		run.env.Close()
 	}
 	accepted := make([]bool, c.NConn) // 233 received in an earlier round
 	for r, ops := range c.Rounds {
+		// connections whose life starts with this round (the previous generation is already closed)
+		for i, p := range c.Conns {
+			if p.Open != r {
+				continue
+			}
+			cl, err := v01Dial(run.env, i)
+			if err != nil {
+				teardown()
+				return nil, err.Error()
+			}
+			run.clients[i] = cl
+		}
 		go func(r int) { run.wgs[r].Wait(); close(run.gates[r]) }(r)
 		var wg sync.WaitGroup
 		results := make([]*v01Res, len(ops))
@@ -499,13 +604,39 @@ func v01Execute(c *v01Case) (_ *v01Run, envErr string) {
 				accepted[res.Op.Conn] = true
 			}
 		}
+		// connections whose life ends with this round
+		var ending []int
+		for i, p := range c.Conns {
+			if p.Close == r+1 {
+				ending = append(ending, i)
+			}
+		}
+		if msg := run.finish(ending, r+1 < len(c.Rounds)); msg != "" {
+			teardown()
+			return nil, msg
+		}
+	}
+	teardown()
+	return run, ""
+}
+
+// finish ends the life of the given connections: barrier round trip, grace, silence and
+// datagram census (for the connection's own streams), client-side close; if the history
+// goes on, it then waits until the SERVER has seen the close (EventLogger.Disconnect is
+// logged for connections it had accepted; for the others there is nothing to observe and
+// a short pause is all that can be done) so that "closed before the next one opens" holds
+// on the server side too.
+func (run *v01Run) finish(conns []int, more bool) (envErr string) {
+	c := run.c
+	if len(conns) == 0 {
+		return ""
 	}
 	// barrier: one more HTTP round trip per connection, then a grace period; after that
 	// nothing the server did for earlier streams/datagrams can still be in flight towards us
 	// on an idle loopback (silence check: expiry = pass).
-	run.barrier = make([]v01HTTPResp, c.NConn)
 	var wg sync.WaitGroup
-	for i, cl := range run.clients {
+	for _, i := range conns {
+		cl := run.clients[i]
 		wg.Add(1)
 		go func() {
 			defer wg.Done()
@@ -518,25 +649,51 @@ func v01Execute(c *v01Case) (_ *v01Run, envErr string) {
 	}
 	wg.Wait()
 	time.Sleep(v01Grace)
+	ending := map[int]bool{}
+	for _, i := range conns {
+		ending[i] = true
+	}
 	for _, res := range run.res {
-		if res.Stream != nil && !c.Accept[res.Op.Conn] {
+		if res.Stream != nil && ending[res.Op.Conn] && !c.Accept[res.Op.Conn] {
 			run.silentN[res.Op.Label] = res.Stream.silent(v01Grace / 3)
 		}
 	}
-	run.dgramsN = make([]int, c.NConn)
-	for i, cl := range run.clients {
-		run.dgramsN[i] = cl.datagramCount()
+	for _, i := range conns {
+		run.dgramsN[i] = run.clients[i].datagramCount()
 	}
 	for _, res := range run.res {
-		if res.Stream != nil {
+		if res.Stream != nil && ending[res.Op.Conn] {
 			res.Stream.abandon()
 		}
 	}
-	for _, cl := range run.clients {
-		cl.Close()
+	for _, i := range conns {
+		run.clients[i].Close()
 	}
-	run.env.Close()
-	return run, ""
+	if !more {
+		return ""
+	}
+	for _, i := range conns {
+		wasAccepted := false
+		for _, e := range run.env.log.snapshot() {
+			if e.Kind == "AuthRet" && e.OK && e.Conn == i {
+				wasAccepted = true
+			}
+		}
+		if !wasAccepted {
+			continue
+		}
+		deadline := time.Now().Add(15 * time.Second)
+		for run.env.log.countConn("EvDisconnect", i) == 0 {
+			if time.Now().After(deadline) {
+				return fmt.Sprintf("the server did not report the close of connection c%d within 15 s", i)
+			}
+			time.Sleep(time.Millisecond)
+		}
+	}
+	// the server finishes its per-connection teardown right after logging (or, for never
+	// accepted connections, without logging anything): schedule shaping only
+	time.Sleep(4 * time.Millisecond)
+	return ""
 }
 
 func (run *v01Run) doOp(res *v01Res) {
@@ -672,6 +829,22 @@ func (run *v01Run) judge() (violation string, inconclusive string) {
 	if v := v01JudgeLog(evs, c.Accept); v != "" {
 		return v, ""
 	}
+	// O5: status 233 means "accepted"; it can only be sent on a connection for which the
+	// authenticator returned ok at some point (otherwise the attempt was accepted, or an
+	// earlier connection's acceptance reused, without consulting the authenticator).
+	okConn := make([]bool, c.NConn)
+	for _, e := range evs {
+		if e.Kind == "AuthRet" && e.OK && e.Conn >= 0 && e.Conn < c.NConn {
+			okConn[e.Conn] = true
+		}
+	}
+	for _, res := range run.res {
+		o := res.Op
+		if (o.Kind == v01KAuthGood || o.Kind == v01KAuthBad || o.Kind == v01KOtherHTTP) && res.Err == nil &&
+			res.HTTP.Status == v01StatusHyOK && !okConn[o.Conn] {
+			return fmt.Sprintf("O2/O3: %s was answered 233 although the authenticator never accepted anything on connection c%d (acceptance not decided by the authenticator for this connection)", o, o.Conn), ""
+		}
+	}
 	killer := make([]int, c.NConn) // first round with a data0 stream on a never-accept connection
 	for i := range killer {
 		killer[i] = 1 << 30
@@ -793,6 +966,9 @@ func (c *v01Case) classify() (nt bool, classes []string) {
 	preProxy := false
 	reauthThenProxy := false
 	reauth := make([]bool, c.NConn)
+	authBad := make([]bool, c.NConn)    // an AuthBad on the connection
+	preAuthBad := make([]bool, c.NConn) // an AuthBad before the connection's own accept round
+	afterClosedAccepted := false
 	for r, ops := range c.Rounds {
 		for _, o := range ops {
 			post := c.AcceptRnd[o.Conn] >= 0 && r > c.AcceptRnd[o.Conn]
@@ -823,6 +999,10 @@ func (c *v01Case) classify() (nt bool, classes []string) {
 					set["framing-"+v01FrNames[o.Framing]] = true
 				}
 			case v01KAuthBad:
+				authBad[o.Conn] = true
+				if c.Accept[o.Conn] && r < c.AcceptRnd[o.Conn] {
+					preAuthBad[o.Conn] = true
+				}
 				if post {
 					set["reject-after-accept"] = true
 					reauth[o.Conn] = true
@@ -860,11 +1040,48 @@ func (c *v01Case) classify() (nt bool, classes []string) {
 	if accProxy && neverProxy {
 		set["accepted+never-accepted-both-proxy"] = true
 	}
+	// connection lifetimes: a connection opened after an accept-role connection was closed
+	gens := map[int]bool{}
+	for i, p := range c.Conns {
+		gens[p.Open] = true
+		for j, q := range c.Conns {
+			if i == j || !q.Accept || q.Close > p.Open {
+				continue
+			}
+			// q (accept role) was closed before p was opened
+			set["conn-after-closed-accepted"] = true
+			afterClosedAccepted = true
+			if !p.Accept {
+				set["conn-after-closed-accepted:never-accepted"] = true
+				if proxy[i] {
+					set["conn-after-closed-accepted:never-accepted+proxy"] = true
+				}
+				if authBad[i] {
+					set["conn-after-closed-accepted:never-accepted+authbad"] = true
+				}
+			} else {
+				set["conn-after-closed-accepted:accept-role"] = true
+				if preAuthBad[i] {
+					set["conn-after-closed-accepted:authbad-before-own-accept"] = true
+				}
+			}
+		}
+	}
+	set["mode="+c.Mode] = true
+	if c.Mode == "generations" {
+		set[fmt.Sprintf("generations=%d", len(gens))] = true
+	}
+	if c.OneP {
+		set["gomaxprocs1"] = true
+	}
 	set[fmt.Sprintf("conns=%d", c.NConn)] = true
 	if c.UseTL {
 		set["traffic-logger"] = true
 	}
-	nt = (accProxy && neverProxy) || reauthThenProxy || preProxy || (neverProxy && set["held-authenticator"])
+	nt = (accProxy && neverProxy) || reauthThenProxy || preProxy || (neverProxy && set["held-authenticator"]) ||
+		set["conn-after-closed-accepted:never-accepted+proxy"] || set["conn-after-closed-accepted:never-accepted+authbad"] ||
+		set["conn-after-closed-accepted:authbad-before-own-accept"]
+	_ = afterClosedAccepted
 	for k := range set {
 		classes = append(classes, k)
 	}
